@@ -43,12 +43,6 @@ structure CErr where
   tok : Nat
 deriving DecidableEq, Repr
 
-inductive CRes (α : Type) where
-  | ok (a : α)
-  | err (e : CErr)
-  | unsupported (what : String)
-deriving Repr
-
 structure CState where
   code : List Op := []
   /-- debug map: index of the source token each opcode was emitted for -/
@@ -62,6 +56,15 @@ structure CState where
   /-- `xs.flow_stack.is_empty()` looks at the whole stack, hidden part included -/
   hiddenFlows : Nat := 0
   lastTok : Nat := 0
+  /-- the current context is a meta block (`alloc_heap` refuses to work there) -/
+  inMeta : Bool := false
+deriving Repr
+
+inductive CRes (α : Type) where
+  | ok (a : α)
+  /-- the error, and the compiler state at the moment of failure (what `build_unwind` starts from) -/
+  | err (e : CErr) (s : CState)
+  | unsupported (what : String)
 deriving Repr
 
 def unbalanced (msg : String) : Xerr := .controlFlow msg
@@ -140,7 +143,7 @@ end CState
 
 open CState
 
-def cerr (s : CState) (e : Xerr) : CRes α := .err ⟨e, s.lastTok⟩
+def cerr (s : CState) (e : Xerr) : CRes α := .err ⟨e, s.lastTok⟩ s
 
 /-- opcode for a literal / constant (`load_value_opcode`) -/
 def loadValueOp (c : Cell) : Op := Mach.loadValueOp c
@@ -316,6 +319,7 @@ def buildLocal (s : CState) (name : String) : CRes CState :=
 /-- `build_global_variable` -/
 def buildGlobal (s : CState) (name : String) : CRes CState :=
   if s.flows.isEmpty && s.hiddenFlows == 0 then
+    if s.inMeta then cerr s Mach.constContext else
     match s.heapLimit with
     | some lim =>
       if s.heapLen ≥ lim then cerr s (.errorMsg s!"heap limit reached: {s.heapLen} of {lim}")
@@ -395,7 +399,7 @@ def compileToks : List Tok → Nat → CState → CRes CState
                      else withName { s with lastTok := idx + 1 } n name
             match r with
             | .ok s' => compileToks rest' (idx + 2) s'
-            | .err e => .err e
+            | .err e sp => .err e sp
             | .unsupported u => .unsupported u
           | _ =>
             if n == "late" then
@@ -405,12 +409,12 @@ def compileToks : List Tok → Nat → CState → CRes CState
         else
           match immediate s n with
           | .ok s' => compileToks rest (idx + 1) s'
-          | .err e => .err e
+          | .err e sp => .err e sp
           | .unsupported u => .unsupported u
       | _ =>
         match buildWord s w with
         | .ok s' => compileToks rest (idx + 1) s'
-        | .err e => .err e
+        | .err e sp => .err e sp
         | .unsupported u => .unsupported u
 
 end Xeh.Compile
